@@ -1281,7 +1281,11 @@ f_functions (void)
 
   progp = sp->u.ob->prog;
   num = progp->num_functions_total;
-  if (num && progp->function_table[progp->num_functions_defined - 1].name[0]
+  /* a program that only inherits defines no function of its own: there is
+   * no last entry to look at (and no initializer, which is always defined
+   * at this level) */
+  if (progp->num_functions_defined
+      && progp->function_table[progp->num_functions_defined - 1].name[0]
       == APPLY___INIT_SPECIAL_CHAR)
     num--;
 
